@@ -19,6 +19,12 @@ pub enum Serve {
     Late(u8),
 }
 
+thread_local! {
+    /// When set, every simulated device of this thread scribbles over driver-owned queue areas
+    /// after fetching (differential part of C07).
+    pub static SCRIBBLE_ALL: std::cell::Cell<Option<u8>> = const { std::cell::Cell::new(None) };
+}
+
 pub struct QSrv {
     pub rq: RefQueue,
     pub notified: bool,
@@ -36,11 +42,29 @@ pub struct Queues {
     pub policy_of: Vec<Option<Serve>>,
     pub interrupts: u64,
     pub completions: u64,
+    /// When set, the device overwrites the descriptor table and the available ring (which it
+    /// must not write) with garbage after it has fetched what it needs.
+    pub scribble: Option<u8>,
+    pub scribbles: u64,
 }
 
 impl Queues {
     pub fn new(policy: Serve) -> Self {
-        Queues { v: Vec::new(), policy, policy_of: Vec::new(), interrupts: 0, completions: 0 }
+        Queues { v: Vec::new(), policy, policy_of: Vec::new(), interrupts: 0, completions: 0, scribble: SCRIBBLE_ALL.with(|s| s.get()), scribbles: 0 }
+    }
+
+    /// Overwrite driver-owned queue areas of queue `q` (everything except the available index,
+    /// which the device itself still needs to find new entries).
+    pub fn scribble_queue(&mut self, w: &mut World, q: u16) {
+        let Some(seed) = self.scribble else { return };
+        let Some(s) = self.v.get(q as usize).and_then(|s| s.as_ref()) else { return };
+        let n = s.rq.n as usize;
+        self.scribbles += 1;
+        let k = self.scribbles as u8;
+        let garbage: Vec<u8> = (0..16 * n).map(|i| (i as u8).wrapping_mul(seed | 1).wrapping_add(k) ^ 0xa5).collect();
+        let _ = w.hal.poke(s.rq.desc, &garbage);
+        let _ = w.hal.poke(s.rq.avail, &garbage[..2]);
+        let _ = w.hal.poke(s.rq.avail + 4, &garbage[..2 * n]);
     }
 
     pub fn policy_for(&self, q: u16) -> Serve {
@@ -117,6 +141,7 @@ impl Queues {
         if !out.is_empty() {
             self.arm(w, q);
         }
+        self.scribble_queue(w, q);
         out
     }
 
